@@ -67,6 +67,26 @@ def is_known(known, prop, failure):
     return None
 
 
+def relied_upon(gen, prefixes):
+    """qualified names of the unit's functions whose contracts the property's proofs rely on: the functions that carry an obligation of
+    the property, plus - transitively, by name - everything they call inside the unit (a caller is checked against the callee's contract,
+    so a callee whose own contract fails invalidates the caller's proof)"""
+    by_name = {}
+    for f in gen.fns:
+        by_name.setdefault(f["qual"].split("::")[-1], []).append(f)
+    rel = {f["qual"] for f in gen.fns if [o for o in f["obligations"] if any(o.startswith(p) for p in prefixes)]}
+    work = list(rel)
+    fn = {f["qual"]: f for f in gen.fns}
+    while work:
+        q = work.pop()
+        for c in fn[q].get("calls", []):
+            for g in by_name.get(c, []):
+                if g["qual"] not in rel:
+                    rel.add(g["qual"])
+                    work.append(g["qual"])
+    return rel
+
+
 # ------------------------------------------------------------------------------------------------ check
 
 def check(prop, tier, repo, seed):
@@ -88,15 +108,43 @@ def check(prop, tier, repo, seed):
         futs = [(unit, prefixes, pool.submit(VR.run_unit, os.path.join(VERIF, "spec", unit + ".vspec"), repo))
                 for (unit, prefixes) in cfg.get("verus", [])]
         unit_results = [(unit, prefixes, f.result()) for (unit, prefixes, f) in futs]
+        # units whose proved contracts are imported (contracts_of) by the units above and are not run for this property anyway:
+        # a contract relied upon must hold in its home unit
+        have = {u for (u, _, _) in unit_results}
+        deps = {}
+        for (unit, prefixes, res) in unit_results:
+            if res.gen:
+                rel = relied_upon(res.gen, prefixes)
+                for f in res.gen.fns:
+                    if f.get("contract_from") and f["qual"] in rel:
+                        deps.setdefault(f["contract_from"].replace(".vspec", ""), set()).add(f["qual"])
+        dfuts = [(d, quals, pool.submit(VR.run_unit, os.path.join(VERIF, "spec", d + ".vspec"), repo)) for (d, quals) in sorted(deps.items()) if d not in have]
+        dep_results = [(d, quals, f.result()) for (d, quals, f) in dfuts]
+    for (d, quals, res) in dep_results:
+        checker_cmds.append(res.cmd)
+        smt_ms += res.smt_ms
+        if res.status == "undecided":
+            undecided.append("%s (unit whose contracts are imported): %s" % (d, res.reason))
+            continue
+        for f in res.failures:
+            if f["fn"] in quals:
+                f = dict(f, unit=d, mine=(f["obligations"] or ["contract of " + f["fn"]]), gen_path=res.gen_path)
+                k = is_known(known, prop, f)
+                if k:
+                    known_hits.append((k, f))
+                else:
+                    violations.append(f)
+        notes.append("imported contracts of unit %s re-checked in their home unit (%d functions relied upon)" % (d, len(quals)))
     for (unit, prefixes, res) in unit_results:
         units.append(res)
         checker_cmds.append(res.cmd)
         smt_ms += res.smt_ms
         if res.gen:
+            rel0 = relied_upon(res.gen, prefixes)
             for f in res.gen.fns:
                 mine = [o for o in f["obligations"] if any(o.startswith(p) for p in prefixes)]
                 functions.append({"fn": f["qual"], "at": "%s:%d" % (f["file"], f["line"]), "obligations": f["obligations"],
-                                  "verified_body": not f["external"], "counts_for_property": bool(mine)})
+                                  "verified_body": not f["external"], "counts_for_property": bool(mine) or f["qual"] in rel0})
             for k, v in res.gen.rules.items():
                 rules["%s: %s" % (unit, k)] = v
             sc = res.gen.scan
@@ -115,12 +163,15 @@ def check(prop, tier, repo, seed):
             continue
         # function-level verification conditions; failures of functions that carry no obligation of THIS property belong to
         # another property's check and are left out of both counts (they are listed under notes)
-        foreign = len({f["fn"] for f in res.failures if f["fn"] and f["kind"] != "prelude"
-                       and not [o for o in f["obligations"] if any(o.startswith(p) for p in prefixes)]})
+        rel = relied_upon(res.gen, prefixes) if res.gen else set()
+        foreign = len({f["fn"] for f in res.failures if f["fn"] and f["kind"] != "prelude" and f["fn"] not in rel})
         obligations += res.verified + res.errors - foreign
         discharged += res.verified
         for f in res.failures:
             mine = [o for o in f["obligations"] if any(o.startswith(p) for p in prefixes)]
+            if not mine and f["fn"] in rel:
+                # a function the property's proofs call: its contract is relied upon
+                mine = f["obligations"] or ["contract of " + f["fn"]]
             if f["kind"] == "prelude" or f["fn"] is None:
                 undecided.append("%s: proof text (lemma) failed: %s at generated line %d" % (unit, f["message"], f["gen_line"]))
             elif mine:
